@@ -283,20 +283,33 @@ func runC11(r *engine.Run) {
 		// wrong lengths and malformed inputs must be rejected
 		r.Part("repr/"+id.name+"/rejects", 1, func(c *engine.Case) {
 			c.NonTrivial()
-			for _, l := range []int{0, 1, id.n - 1, id.n + 1, 2 * id.n} {
-				c.Eval()
-				b := bytes.Repeat([]byte{0xA5}, l)
-				if _, err := id.unbin(b); err == nil {
-					c.Fail("repr/"+id.name+"/binary-wrong-length-accepted", fmt.Sprintf("%d bytes accepted", l), nil)
+			// every byte length 0..4n+2 x four fillers (incl. ASCII hex digits, which a
+			// tolerant decoder could mistake for text): accepted iff the length is n
+			for l := 0; l <= 4*id.n+2; l++ {
+				for _, fill := range []byte{0xA5, 0x00, '3', 'a'} {
+					c.Eval()
+					b := bytes.Repeat([]byte{fill}, l)
+					if _, err := id.unbin(b); (err == nil) != (l == id.n) {
+						c.Fail("repr/"+id.name+"/binary-wrong-length-accepted", fmt.Sprintf("%d bytes of %02x: err=%v", l, fill, err), nil)
+					}
+					if _, err := id.scan(b); (err == nil) != (l == id.n) {
+						c.Fail("repr/"+id.name+"/scan-wrong-length-accepted", fmt.Sprintf("Scan of %d bytes of %02x: err=%v", l, fill, err), nil)
+					}
 				}
-				if _, err := id.scan(b); err == nil {
-					c.Fail("repr/"+id.name+"/scan-wrong-length-accepted", fmt.Sprintf("%d bytes accepted", l), nil)
-				}
-				if _, err := id.untext([]byte(hex.EncodeToString(b))); err == nil {
-					c.Fail("repr/"+id.name+"/text-wrong-length-accepted", fmt.Sprintf("%d bytes accepted", l), nil)
-				}
-				if _, err := id.untext([]byte("0x" + hex.EncodeToString(b))); err == nil {
-					c.Fail("repr/"+id.name+"/text-wrong-length-accepted", fmt.Sprintf("0x + %d bytes accepted", l), nil)
+			}
+			// every number of hex digits 0..6n+4 x three digit patterns x {plain, 0x}: accepted iff 2n digits
+			for d := 0; d <= 6*id.n+4; d++ {
+				for _, pat := range []string{"0", "a5", "0f3"} {
+					digits := strings.Repeat(pat, d/len(pat)+1)[:d]
+					if pat == "0f3" && d > 0 {
+						digits = "0" + strings.Repeat("f3", d)[:d-1] // a leading zero: numerically small, textually too long
+					}
+					for _, prefix := range []string{"", "0x"} {
+						c.Eval()
+						if _, err := id.untext([]byte(prefix + digits)); (err == nil) != (d == 2*id.n) {
+							c.Fail("repr/"+id.name+"/text-wrong-length-accepted", fmt.Sprintf("%q (%d hex digits): err=%v", prefix+digits, d, err), nil)
+						}
+					}
 				}
 			}
 			good := hex.EncodeToString(bytes.Repeat([]byte{0x5A}, id.n))
